@@ -84,8 +84,20 @@ def gen_ops(base, sizes, tier, rng, ranges=()):
     return ops
 
 
-def explore(res, tier, seed):
-    """returns dict: base id -> dict(sizes, ranges, pristine, cases: [dict(file, op, debug:{lines,outcome}, release:{...}, model:[...])])"""
+def parse_replay(path):
+    """replay file of a damage check -> (base description, file, op)"""
+    import ast
+    txt = open(path).read()
+    m = re.search(r"case \S+ damage base=\S+ main=\S+ file=(\S+) op=(\S+)", txt)
+    b = re.search(r"# base container: (\{.*\})", txt)
+    if not m or not b:
+        return None
+    return ast.literal_eval(b.group(1)), m.group(1), m.group(2)
+
+
+def explore(res, tier, seed, only=None):
+    """returns dict: base id -> dict(sizes, ranges, pristine, cases: [dict(file, op, debug:{lines,outcome}, release:{...}, model:[...])]);
+    only = (base, file, op): just that damaged variant of that base (replay)"""
     ok, log = C.build_ocaml()
     okd, logd, exed = C.build_harness(False)
     okr, logr, exer = C.build_harness(True)
@@ -97,7 +109,11 @@ def explore(res, tier, seed):
         key.update(open(p, "rb").read())
     key.update(("%s %d" % (tier, seed)).encode())
     cache = os.path.join(C.WORK, "damage_cache_%s.json" % key.hexdigest()[:20])
-    if os.path.exists(cache):
+    the_bases = bases(tier) if only is None else [only[0]]
+    if only is not None:
+        tier = "replay"
+        cache = os.path.join(C.WORK, "damage_cache_replay.json")
+    if only is None and os.path.exists(cache):
         res.cov["damage_exploration"] = "reused from cache (same harness binaries, driver, seed, tier)"
         return json.load(open(cache))
     rng = random.Random(seed)
@@ -107,11 +123,11 @@ def explore(res, tier, seed):
     tmp = os.path.join(wd, "tmp")
     # 1. base containers
     with open(os.path.join(wd, "bases.txt"), "w") as f:
-        f.write("".join(P.case_text(dict(b, ops=[]), seed) for b in bases(tier)))
+        f.write("".join(P.case_text(dict(b, ops=[]), seed) for b in the_bases))
     C.run_rust(exed, os.path.join(wd, "bases.txt"), os.path.join(wd, "bases.out"), tmp)
     out = {}
     allcases = []
-    for b in bases(tier):
+    for b in the_bases:
         bdir = os.path.join(tmp, "pk_%s_base" % b["id"])
         sizes = {fn: os.path.getsize(os.path.join(bdir, fn)) for fn in files_of(b)}
         # where the packs and their check blocks are, according to the model
@@ -121,7 +137,7 @@ def explore(res, tier, seed):
                 os.path.join(bdir, "c.jbk"), "".join("sibling %s %s\n" % (fn, os.path.join(bdir, fn)) for fn in files_of(b) if fn != "c.jbk")))
         C.run_model(rf, ro)
         ranges = [l.split(" ")[1:] for l in C.read_obs(ro).get("r", []) if l.startswith("range ")]
-        ops = gen_ops(b, sizes, tier, rng, ranges)
+        ops = gen_ops(b, sizes, tier, rng, ranges) if only is None else [("c.jbk", "none"), (only[1], only[2])]
         keep = os.path.join(wd, "bases", b["id"])
         C.sh(["rm", "-rf", keep]); os.makedirs(os.path.dirname(keep), exist_ok=True)
         C.sh(["cp", "-r", bdir, keep])
@@ -165,7 +181,7 @@ def explore(res, tier, seed):
         M.update(C.read_obs(p + ".out"))
     for b, c in allcases:
         c["model"] = M.get(c["id"], [])
-    for b in bases(tier):
+    for b in the_bases:
         o = out[b["id"]]
         o["ranges"] = [l.split(" ")[1:] for l in o["cases"][0]["model"] if l.startswith("range ")]
         o["cases"][0]["model"] = [l for l in o["cases"][0]["model"] if not l.startswith("range ")]
